@@ -177,9 +177,15 @@ impl Tunnel {
                         request.fail_request(err);
                         return;
                     }
-                    (Err(e), ..) => {
+                    (Err(e), _, authenticator) => {
                         log_id!(debug, request_id, "Failed to get auth info: {}", e);
-                        request.fail_request(ConnectionError::Io(e));
+                        // unusable credentials are an authentication failure, not a gateway one
+                        request.fail_request(match authenticator {
+                            Some(_) => ConnectionError::Authentication(
+                                "Unsupported authorization header".to_string(),
+                            ),
+                            None => ConnectionError::Io(e),
+                        });
                         return;
                     }
                 };
